@@ -128,6 +128,8 @@ def mirror(prop, r):
             fails.append("VJP or JVP not linear (Adjoint)")
         if r["lin0_vjp"] or r["lin0_jvp"]:
             fails.append("VJP or JVP not linear as a traced function at the origin: d/dg vjp(g) at g=0 differs from vjp (Adjoint)")
+    if prop in ("C14", "C17") and r["fam"] == "extend" and (r["vjp_raised"] or r["jvp_raised"]):
+        fails.append("a derivative with a registered rule (or a registered None) raised")
     if prop == "C10" and not r["vjp_raised"]:
         if r["vjp_late"]:
             fails.append("the VJP function is not reusable: a later call raised or re-applying a cotangent gave a different result")
@@ -169,9 +171,9 @@ def mirror(prop, r):
 
 FAMILIES = {
     # family: (MaxRank quick, MaxRank thorough, kinds)
-    "empty": (2, 2, ["rr"]), "mixorder": (2, 2, ["rr"]), "realinto": (2, 2, ["rc"]), "special": (2, 2, ["rr"]), "extend": (2, 2, ["rr"]), "helper": (3, 3, ["rr"]), "argsweep": (2, 2, ["rr"]), "index": (2, 3, ["rr"]), "kink": (2, 2, ["rr"]), "linalg": (3, 3, ["rr"]), "fft": (3, 3, ["rr"]), "join": (3, 3, ["rr"]), "contract": (3, 3, ["rr"]), "rearr": (3, 3, ["rr"]), "binary": (3, 4, ["rr"]), "where": (2, 2, ["rr"]), "reduce": (3, 4, ["rr"]), "cum": (3, 3, ["rr"]), "unary": (2, 2, ["rr"]),
+    "single": (2, 2, ["rr"]), "empty": (2, 2, ["rr"]), "mixorder": (2, 2, ["rr"]), "realinto": (2, 2, ["rc"]), "special": (2, 2, ["rr"]), "extend": (2, 2, ["rr"]), "helper": (3, 3, ["rr"]), "argsweep": (2, 2, ["rr"]), "index": (2, 3, ["rr"]), "kink": (2, 2, ["rr"]), "linalg": (3, 3, ["rr"]), "fft": (3, 3, ["rr"]), "join": (3, 3, ["rr"]), "contract": (3, 3, ["rr"]), "rearr": (3, 3, ["rr"]), "binary": (3, 4, ["rr"]), "where": (2, 2, ["rr"]), "reduce": (3, 4, ["rr"]), "cum": (3, 3, ["rr"]), "unary": (2, 2, ["rr"]),
 }
-COMPLEX_FAMILIES = {"realinto": (2, 2, ["rc"]), "linalg": (2, 3, ["cc"]), "fft": (3, 3, ["rr", "cc"]), "contract": (2, 3, ["cc", "cr", "rc"]), "binary": (2, 3, ["cc", "cr", "rc"]), "reduce": (2, 3, ["cc"]), "unary": (2, 2, ["cc"])}
+COMPLEX_FAMILIES = {"single": (2, 2, ["cc", "cr", "rc"]), "realinto": (2, 2, ["rc"]), "linalg": (2, 3, ["cc"]), "fft": (3, 3, ["rr", "cc"]), "contract": (2, 3, ["cc", "cr", "rc"]), "binary": (2, 3, ["cc", "cr", "rc"]), "reduce": (2, 3, ["cc"]), "unary": (2, 2, ["cc"])}
 
 
 def run_rules(pid, tier, seed, fams, per_family_quick, level_rule, assumptions, extra_cases=None, write=True):
